@@ -75,6 +75,58 @@ def _variants(program):
     out = [v for v in _sched.variants(program, ID)]
     envmod = 'valjean.cosette.env'
 
+    def _compressed(caught):
+        def editor(tree):
+            fun = find_func(tree, 'Env.from_file')
+            tree.body.insert(next(i for i, n in enumerate(tree.body)
+                                  if isinstance(n, ast.Import)),
+                             parse_stmts('import zlib')[0])
+            done = False
+            for node in ast.walk(fun):
+                if isinstance(node, ast.Return) and isinstance(
+                        node.value, ast.Call) and txt(node.value.func) == \
+                        'pickle.load':
+                    arg = txt(node.value.args[0])
+                    node.value = parse_expr(
+                        f'pickle.loads(zlib.decompress({arg}.read()))')
+                    done = True
+                if caught and isinstance(node, ast.ExceptHandler) and \
+                        isinstance(node.type, ast.Tuple) and 'EOFError' in \
+                        txt(node.type):
+                    node.type.elts.append(parse_expr('zlib.error'))
+            return done
+        return editor
+    out.append(Variant('seed-env-file-compressed-zlib-error-not-caught',
+                       'mutant', edit_module(program, envmod,
+                                             _compressed(False)),
+                       {'EXC-COVER'}, False,
+                       'seed C14-r4-1: a truncated file makes '
+                       'zlib.decompress raise zlib.error, which read_env '
+                       'lets through (the writer side is irrelevant here)'))
+    out.append(Variant('twin-env-file-compressed-zlib-error-caught', 'twin',
+                       edit_module(program, envmod, _compressed(True)),
+                       None, False, ''))
+
+    def backup_fallback(tree):
+        fun = find_func(tree, 'read_env')
+        for node in ast.walk(fun):
+            if isinstance(node, ast.For):
+                for idx, stmt in enumerate(node.body):
+                    if isinstance(stmt, ast.Assign) and 'from_file' in \
+                            txt(stmt.value):
+                        node.body.insert(idx + 1, parse_stmts(
+                            'if persisted_env is None:\n'
+                            "    persisted_env = Env.from_file(task_file + "
+                            "'.bak', fmt=fmt)")[0])
+                        return True
+        return False
+    out.append(Variant('seed-unreadable-file-replaced-by-its-backup',
+                       'mutant', edit_module(
+                           program, 'valjean.cambronne.common',
+                           backup_fallback), {'READ-PATH'}, False,
+                       'seed C14-r4-2: a damaged file brings back the entry '
+                       'of an earlier run'))
+
     def narrow(tree):
         fun = find_func(tree, 'Env.from_file')
         for node in ast.walk(fun):
